@@ -3,7 +3,7 @@
 import sys, os, json, shutil, re
 for name in sys.argv[1:]:
     P, X = name[:3], name[3:]
-    src = "/tmp/mut/%s/%s/%s" % (P, {"a": "out", "b": "out", "c": "out2", "d": "out2", "e": "out3", "f": "out3"}.get(X, "out4"), X)
+    src = "/tmp/mut/%s/%s/%s" % (P, {"a": "out", "b": "out", "c": "out2", "d": "out2", "e": "out3", "f": "out3", "i": "out5", "j": "out5"}.get(X, "out4"), X)
     res = json.load(open("/tmp/mut/results/%s.json" % name))
     dst = "/verif/seeded/%s" % name
     os.makedirs(dst, exist_ok=True)
